@@ -206,22 +206,35 @@ func fatalSig(stderr string) (string, string) {
 	case strings.Contains(stderr, "out of memory"):
 		class = "out-of-memory"
 	}
+	// the recursing function: the goa frame that occurs most often in the dump (the
+	// innermost frame is whatever leaf happened to hit the limit)
 	fn := "unknown"
+	count := map[string]int{}
+	var order []string
 	for _, l := range strings.Split(stderr, "\n") {
-		if strings.HasPrefix(l, goaPrefix) {
-			fn = strings.TrimPrefix(l, goaPrefix)
-			if i := strings.LastIndex(fn, "("); i > 0 {
-				fn = fn[:i]
+		if !strings.HasPrefix(l, goaPrefix) {
+			continue
+		}
+		f := strings.TrimPrefix(l, goaPrefix)
+		if i := strings.LastIndex(f, "("); i > 0 {
+			f = f[:i]
+		}
+		for {
+			k := strings.LastIndex(f, ".func")
+			if k < 0 {
+				break
 			}
-			// the frame the overflow happens in varies between a method and its closures
-			for {
-				k := strings.LastIndex(fn, ".func")
-				if k < 0 {
-					break
-				}
-				fn = fn[:k]
-			}
-			break
+			f = f[:k]
+		}
+		if count[f] == 0 {
+			order = append(order, f)
+		}
+		count[f]++
+	}
+	best := 0
+	for _, f := range order {
+		if count[f] > best {
+			best, fn = count[f], f
 		}
 	}
 	lines := strings.Split(stderr, "\n")
